@@ -31,6 +31,7 @@ type HarnessCfg struct {
 	CapVars    map[string]bool   // captured variable names
 	CapTrigger string            // variable whose (re)definition takes a snapshot / cut
 	CapCut     map[string]bool   // variables replaced by fresh constants at each trigger
+	CutLoopFn  string            // function whose loop-carried variables (phis named in CapCut) are cut at every iteration
 }
 
 type Obligation struct {
@@ -129,6 +130,8 @@ type Exec struct {
 	ufAppSeen   map[string]bool
 	lenientFn   *ssa.Function // top-level init function executed leniently (failing instructions are skipped)
 	folded      int
+	eagerPanics int
+	guardValid  map[int]bool
 	foldedIDs   []string
 }
 
@@ -139,7 +142,7 @@ func NewExec(prog *ssa.Program, cfg *HarnessCfg) *Exec {
 		initDone: map[*ssa.Package]bool{}, initRunning: map[*ssa.Package]bool{},
 		notes: map[string]int{}, loopCache: map[*ssa.Function]*loopForest{},
 		funcsSeen: map[string]bool{}, errObjs: map[string]*Object{}, typeObjs: map[string]*Object{},
-		ufAxiomDone: map[string]bool{}, strIntern: map[string]int{}, ghost: map[string]Value{}, negOf: map[int]*Term{}, dmCache: map[string][2]*Term{}, defOf: map[int]*Term{}, defAsserted: map[int]bool{}, feltQ: map[string]*big.Int{}, byteProv: map[int]byteProv{}, dmSrc: map[int]dmSource{}, limbBuf: map[string]map[int]*big.Int{}, ufApps: map[string][]*ufApp{}, capAll: map[string][]*Term{}, capLastReg: map[string]ssa.Value{}, capFinal: map[string]*Term{}, capLastVal: map[string]Value{}, ufAppSeen: map[string]bool{}}
+		ufAxiomDone: map[string]bool{}, strIntern: map[string]int{}, ghost: map[string]Value{}, negOf: map[int]*Term{}, dmCache: map[string][2]*Term{}, defOf: map[int]*Term{}, defAsserted: map[int]bool{}, feltQ: map[string]*big.Int{}, byteProv: map[int]byteProv{}, dmSrc: map[int]dmSource{}, limbBuf: map[string]map[int]*big.Int{}, guardValid: map[int]bool{}, ufApps: map[string][]*ufApp{}, capAll: map[string][]*Term{}, capLastReg: map[string]ssa.Value{}, capFinal: map[string]*Term{}, capLastVal: map[string]Value{}, ufAppSeen: map[string]bool{}}
 }
 
 func (ex *Exec) note(s string) { ex.notes[s]++ }
@@ -230,13 +233,67 @@ func (ex *Exec) panicObligation(st *PState, c *Term, msg string) {
 	if c.IsFalse() {
 		return
 	}
+	cond := ex.ts.And(st.g, c)
+	if cond.IsFalse() {
+		return
+	}
 	if !ex.cfg.AllowPanic {
-		cond := ex.ts.And(st.g, c)
-		if !cond.IsFalse() {
-			ex.obligations = append(ex.obligations, &Obligation{Kind: "panic", ID: msg, Cond: cond, Pos: ex.pos(), Order: len(ex.obligations)})
+		// eager discharge: a panic condition that is unsatisfiable right away neither becomes a
+		// pending obligation nor narrows the path guard (keeps guards, and with them every later
+		// assumption and query, small)
+		if ex.solver != nil && ex.cfg.Opts["eagerpanic"] != "0" && ex.initRunningAny() == false {
+			if r := ex.checkQuick([]*Term{cond}); r == "unsat" {
+				ex.eagerPanics++
+				return
+			}
 		}
+		ex.obligations = append(ex.obligations, &Obligation{Kind: "panic", ID: msg, Cond: cond, Pos: ex.pos(), Order: len(ex.obligations)})
 	}
 	st.g = ex.ts.And(st.g, ex.ts.Not(c))
+}
+
+// simplifyGuard replaces a path guard that is valid under the assumptions (a tautology that the
+// syntactic simplifier did not recognise, e.g. a multi-way merge of exhaustive branches) by true.
+func (ex *Exec) simplifyGuard(st *PState) {
+	if st.g.IsConst() || ex.solver == nil {
+		return
+	}
+	if v, ok := ex.guardValid[st.g.id]; ok {
+		if v {
+			st.g = ex.ts.Bool(true)
+		}
+		return
+	}
+	r := ex.checkQuick([]*Term{ex.ts.Not(st.g)})
+	ex.guardValid[st.g.id] = r == "unsat"
+	if r == "unsat" {
+		st.g = ex.ts.Bool(true)
+	}
+}
+
+func (ex *Exec) initRunningAny() bool {
+	for _, v := range ex.initRunning {
+		if v {
+			return true
+		}
+	}
+	return false
+}
+
+// checkQuick: satisfiability with the first solver of the chain only.
+func (ex *Exec) checkQuick(conds []*Term) string {
+	defs := ex.defClosure(conds)
+	s := ex.solver.get(0)
+	if s == nil {
+		return "unknown"
+	}
+	r := s.Check(append(append([]*Term{}, conds...), defs...), nil)
+	ex.solver.Queries++
+	ex.solver.Seconds += r.Secs
+	if s.dead {
+		ex.solver.solvers[0] = nil
+	}
+	return r.Status
 }
 
 // ---------- loop forest / block ordering ----------
@@ -450,6 +507,9 @@ func (ex *Exec) execItems(act *activation, items []item) {
 			}
 			delete(act.pending, it.block.Index)
 			st := ex.mergeIncoming(it.block, inc)
+			if st != nil && ex.cfg.CutLoopFn != "" && act.fn.Name() == ex.cfg.CutLoopFn {
+				st = ex.cutLoopPhis(it.block, st)
+			}
 			if st == nil {
 				continue
 			}
@@ -604,6 +664,59 @@ func (ex *Exec) mergeIncoming(b *ssa.BasicBlock, inc []incoming) *PState {
 	return st
 }
 
+// cutLoopPhis: at the head of a loop of the designated function, the loop-carried variables named
+// in CapCut are replaced by fresh constants (a cut point: one iteration is then verified from an
+// arbitrary state constrained only by the invariant the harness assumes).
+func (ex *Exec) cutLoopPhis(b *ssa.BasicBlock, st *PState) *PState {
+	if !strings.HasSuffix(b.Comment, ".loop") {
+		return st // only loop headers are cut points
+	}
+	var phis []*ssa.Phi
+	for _, instr := range b.Instrs {
+		phi, ok := instr.(*ssa.Phi)
+		if !ok {
+			break
+		}
+		if ex.cfg.CapCut[phi.Comment] {
+			phis = append(phis, phi)
+		}
+	}
+	if len(phis) == 0 {
+		return st
+	}
+	k := len(ex.capSnaps)
+	snap := map[string]*Term{}
+	olds := map[string]*Term{}
+	news := map[string]*Term{}
+	env := make(map[ssa.Value]Value, len(st.env))
+	for kk, vv := range st.env {
+		env[kk] = vv
+	}
+	for _, phi := range phis {
+		cur, ok := st.env[phi].(*Term)
+		if !ok {
+			continue
+		}
+		snap[phi.Comment] = cur
+		olds[phi.Comment] = cur
+		if cur.IsConst() || ex.pinRe != nil {
+			news[phi.Comment] = cur
+			continue
+		}
+		lo, hi := cur.lo, cur.hi
+		if ii, ok := basicIntInfo(phi.Type()); ok {
+			lo, hi = ii.lo, ii.hi
+		}
+		nv := ex.ts.Var(fmt.Sprintf("cut!%s!%d", phi.Comment, k), cur.sort, lo, hi)
+		news[phi.Comment] = nv
+		env[phi] = nv
+	}
+	ex.capSnaps = append(ex.capSnaps, snap)
+	ex.capCutOld = append(ex.capCutOld, olds)
+	ex.capCutNew = append(ex.capCutNew, news)
+	return &PState{g: st.g, heap: st.heap, env: env}
+}
+
 func sameEnv(a, b map[ssa.Value]Value) bool {
 	if len(a) != len(b) {
 		return false
@@ -716,6 +829,9 @@ func (ex *Exec) execBlock(act *activation, b *ssa.BasicBlock, st *PState) {
 			for i := len(act.defers) - 1; i >= 0; i-- {
 				d := act.defers[i]
 				if d.g == act.entryG || d.g == st.g {
+					ex.invoke(st, d.fn, d.args, d.call)
+				} else if rest0 := ex.ts.And(st.g, ex.ts.Not(d.g)); rest0.IsFalse() || (ex.solver != nil && ex.checkQuick([]*Term{rest0}) == "unsat") {
+					// the deferred call was registered on every path that reaches this point
 					ex.invoke(st, d.fn, d.args, d.call)
 				} else {
 					sub := st.fork(ex.ts.And(st.g, d.g))
